@@ -750,7 +750,7 @@ def _run_crit(spec, o):
             def phi(t, _e=e_i, _j=jit):
                 v = crit(vec + t * _e)
                 # the stencil must stay in the regime of the base point (no jitter / same jitter level)
-                _j["seen"] = _j["seen"] or (abs(crit.jitter_level - jit0) > 1e-6 * max(jit0, 1e-300))
+                _j["seen"] = _j["seen"] or (abs(crit.jitter_level - jit0) > 0.3 * jit0) or (crit.jitter_on_last != jitter)  # levels differ by factors of 10
                 return v
 
             gi = float(grad[i])
@@ -1651,7 +1651,7 @@ def _run_ops(spec, o):
                 o2 = np.asarray(custom_op.AddJitterOp(custom_op.flatten_and_concat(Xm, np.array([sigsq + 2 * hh]))))
                 j1, p1 = _addjitter_structure(Xm, sigsq + hh, o1, fac, gro)
                 j2, p2 = _addjitter_structure(Xm, sigsq + 2 * hh, o2, fac, gro)
-                if p1 or p2 or abs(j1 - jit) > 1e-5 * jit or abs(j2 - jit) > 1e-5 * jit:
+                if abs(j1 - jit) > 0.3 * jit or abs(j2 - jit) > 0.3 * jit:  # another jitter level (they differ by factors of 10)
                     o.inconclusive("ops_addjitter_level_changes_on_stencil")
                 else:
                     slope = float(np.median((np.diag(o2) - np.diag(o1)) / hh))
